@@ -120,3 +120,25 @@ Theorem unnamed_is_positional sh :
   Some (mkPlan [] [] [] (KPositionalK default_metavar)
                (match sh with ShOptional => [PoOptional] | ShMultiple => [PoMany] | _ => [] end) None).
 Proof. intros H1 H2. destruct sh; try congruence; reflexivity. Qed.
+
+(* ------------------------------------------------------------------ doc comment blocks of an `options` type *)
+Lemma options_help_explicit doc d h f :
+  (forall x, d = Some x -> fst (fst (options_help doc d h f)) = Some x) /\
+  (forall x, h = Some x -> snd (fst (options_help doc d h f)) = Some x) /\
+  (forall x, f = Some x -> snd (options_help doc d h f) = Some x).
+Proof. unfold options_help. destruct doc; repeat split; intros x ->; reflexivity. Qed.
+
+(* each part depends on the doc comment and on ITS OWN annotation only *)
+Lemma options_help_local doc d h f d' h' f' :
+  fst (fst (options_help doc d h f)) = fst (fst (options_help doc d h' f')) /\
+  snd (fst (options_help doc d h f)) = snd (fst (options_help doc d' h f')) /\
+  snd (options_help doc d h f) = snd (options_help doc d' h' f).
+Proof. unfold options_help. destruct doc; repeat split; reflexivity. Qed.
+
+(* without annotations: description = first block, header = second block unless empty, footer = the rest *)
+Lemma options_help_from_doc c :
+  options_help (Some c) None None None =
+  (hd_error (doc_blocks c),
+   match tl (doc_blocks c) with b :: _ => if is_nil b then None else Some b | [] => None end,
+   let rest := join_rest (tl (tl (doc_blocks c))) [] in if is_nil rest then None else Some rest).
+Proof. reflexivity. Qed.
